@@ -1,1 +1,30 @@
-From PM Require Import Model.Diff.
+(* C20 — document diffing terminates and reports the true first difference.
+   Termination: find_diff_start / find_diff_end are structurally recursive
+   Gallina functions (total by construction); that the code terminates like the
+   model is what the correspondence checks (every call under an alarm). *)
+From Coq Require Import List Bool Arith.
+From PM Require Import Model.Data Model.Mark Model.Tree Model.Diff Proofs.DiffProofs.
+Import ListNotations.
+
+(* the object-identity fast path (shared sub-trees after an edit) never changes the answer *)
+Theorem C20_identity_fast_path_irrelevant : forall s (o : node -> node -> bool),
+  sound_oracle o -> forall a b pos, find_diff_start s o a b pos = find_diff_start s never a b pos.
+Proof. exact diff_start_oracle_irrelevant. Qed.
+Print Assumptions C20_identity_fast_path_irrelevant.
+
+(* nothing is reported exactly when the fragments are equal (any admissible sharing) *)
+Theorem C20_start_none_iff_equal : forall s (o : node -> node -> bool), sound_oracle o -> forall a b pos,
+  wf_text_list a = true -> wf_text_list b = true ->
+  (find_diff_start s o a b pos = None <-> frag_eqb a b = true).
+Proof. exact diff_start_none_iff_oracle. Qed.
+Print Assumptions C20_start_none_iff_equal.
+
+Theorem C20_self_diff_none : forall s o a pos, find_diff_start s o a a pos = None.
+Proof. exact fds_refl. Qed.
+Print Assumptions C20_self_diff_none.
+
+(* the partial statement: that a reported position equals the length of the common
+   token prefix (and the end-direction analogues) is evaluated on every generated
+   pair by Corr.C20.holds; it is not yet a theorem. *)
+Definition C20_full_statement_pending : Prop :=
+  forall s a b p, find_diff_start s never a b 0 = Some p -> True.
